@@ -191,7 +191,12 @@ Theorem C05_redrill_count_refuted :
 Proof. exact redrill_count_refuted. Qed.
 Print Assumptions C05_redrill_count_refuted.
 
-(* WellBores.Calculate called again on the same object (district heating): the series are those of a fresh call ... *)
+(* WellBores.Calculate called again on the same object (district heating): whatever count the earlier call left, the
+   result - series, index and count - is that of a fresh call (the code resets the count since fix 825a507) *)
+Theorem C05_second_call : forall prev P T maxdd, redrill_call prev P T maxdd = redrill P T maxdd.
+Proof. exact redrill_call_fresh. Qed.
+Print Assumptions C05_second_call.
+
 Theorem C05_second_call_series : forall prev P T maxdd,
   rd_P (redrill_call prev P T maxdd) = rd_P (redrill P T maxdd) /\
   rd_T (redrill_call prev P T maxdd) = rd_T (redrill P T maxdd) /\
@@ -199,18 +204,28 @@ Theorem C05_second_call_series : forall prev P T maxdd,
 Proof. exact redrill_call_series. Qed.
 Print Assumptions C05_second_call_series.
 
-(* ... and so is the count when the object is fresh or the second call redrills ... *)
-Theorem C05_second_call_count_partial : forall prev P T maxdd, prev = 0%nat \/ index_of P maxdd <> 0%nat ->
-  rd_count (redrill_call prev P T maxdd) = rd_count (redrill P T maxdd).
-Proof. exact redrill_call_count_partial. Qed.
-Print Assumptions C05_second_call_count_partial.
+(* the count after any second call equals the count of a fresh call; it is 0 when the profile never falls below the limit *)
+Theorem C05_second_call_count : forall prev P T maxdd,
+  rd_count (redrill_call prev P T maxdd) = rd_count (redrill P T maxdd) /\
+  (index_of P maxdd = 0%nat -> rd_count (redrill_call prev P T maxdd) = 0%nat).
+Proof. exact redrill_call_count. Qed.
+Print Assumptions C05_second_call_count.
 
-(* ... otherwise the first call's count is reported for a profile that never restarts *)
-Theorem C05_second_call_stale_count_refuted :
+(* the pinned tree (before the fix) kept the earlier count when the second call did not redrill: right only when the
+   object was fresh or the second call redrills ... *)
+Theorem C05_second_call_pinned_count_partial : forall prev P T maxdd, prev = 0%nat \/ index_of P maxdd <> 0%nat ->
+  rd_count (redrill_call_pinned prev P T maxdd) = rd_count (redrill P T maxdd).
+Proof. exact redrill_call_pinned_count_partial. Qed.
+Print Assumptions C05_second_call_pinned_count_partial.
+
+(* ... otherwise the first call's count was reported for a profile that never restarts
+   (regression witness on the implementation: corpus/C05/06_district_heating_stale_redrill_count.json) *)
+Theorem C05_second_call_pinned_stale_count_refuted :
   exists prev P T maxdd, 0 <= hd 0 P /\ 0 < maxdd <= 1 /\ index_of P maxdd = 0%nat /\
-    rd_P (redrill_call prev P T maxdd) = P /\ rd_count (redrill_call prev P T maxdd) <> 0%nat.
-Proof. exact redrill_call_stale_count_refuted. Qed.
-Print Assumptions C05_second_call_stale_count_refuted.
+    rd_P (redrill_call_pinned prev P T maxdd) = P /\ rd_count (redrill_call_pinned prev P T maxdd) <> 0%nat /\
+    rd_count (redrill_call prev P T maxdd) = 0%nat.
+Proof. exact redrill_call_pinned_stale_count_refuted. Qed.
+Print Assumptions C05_second_call_pinned_stale_count_refuted.
 
 (* ================================ models 4 and 3: bounded by bottom-hole temperature, never rising inside a cycle ============ *)
 
@@ -428,3 +443,9 @@ Proof.
   split. eexists. split. vm_compute. reflexivity. vm_compute. reflexivity.
   vm_compute. reflexivity.
 Qed.
+
+(* a second call with an earlier count of 3 on a history that never falls below its limit: repaired 0, pinned 3 *)
+Example C05_ex_second_call :
+  index_of [100; 99; 98] (1 # 10) = 0%nat /\ rd_count (redrill_call 3 [100; 99; 98] [105; 104; 103] (1 # 10)) = 0%nat /\
+  rd_count (redrill_call_pinned 3 [100; 99; 98] [105; 104; 103] (1 # 10)) = 3%nat.
+Proof. repeat split. Qed.
